@@ -275,7 +275,7 @@ func (g *G) ofType(typ byte, cfg *Cfg) *ref.AP {
 			n = 3 + t.Int(12)
 		}
 		for i := 0; i < n; i++ {
-			f := ref.Filter{Name: g.Str(g.Len1())}
+			f := ref.Filter{Name: g.Filter()}
 			if !wf && t.Bool(1, 12) {
 				f.Name = []byte{}
 			}
@@ -298,7 +298,7 @@ func (g *G) ofType(typ byte, cfg *Cfg) *ref.AP {
 			n = 3 + t.Int(12)
 		}
 		for i := 0; i < n; i++ {
-			f := ref.Filter{Name: g.Str(g.Len1())}
+			f := ref.Filter{Name: g.Filter()}
 			if !wf && t.Bool(1, 12) {
 				f.Name = []byte{}
 			}
